@@ -9,8 +9,10 @@ git -C /repo worktree add -q --detach "$dir" HEAD || exit 3
 trap 'git -C /repo worktree remove --force "$dir" >/dev/null 2>&1; rm -rf "$dir"' EXIT
 # demos written by sub-agents often hard-code their own worktree on sys.path: point them at the scratch tree instead
 srcroot=$(dirname "$(dirname "$demo")")
-sed "s#$srcroot#$dir#g" "$demo" > "$dir/_demo.py"
-mkdir -p "$dir/SEEDED" && cp "$dir/_demo.py" "$dir/SEEDED/_demo.py"
+mkdir -p "$dir/SEEDED"
+# helper modules the demo imports travel with it
+for f in "$(dirname "$demo")"/*.py; do sed "s#$srcroot#$dir#g" "$f" > "$dir/SEEDED/$(basename "$f")"; done
+sed "s#$srcroot#$dir#g" "$demo" > "$dir/SEEDED/_demo.py"
 ( cd "$dir" && FLOWJAX_ROOT="$dir" PYTHONPATH="$dir" timeout 900 /venv/bin/python SEEDED/_demo.py >/dev/null 2>&1 ); clean=$?
 ( cd "$dir" && git apply "$patch" ) || { echo "RESULT patch-does-not-apply"; exit 3; }
 ( cd "$dir" && FLOWJAX_ROOT="$dir" PYTHONPATH="$dir" timeout 900 /venv/bin/python SEEDED/_demo.py >/dev/null 2>&1 ); broken=$?
